@@ -1222,14 +1222,30 @@ class SymNP(types.ModuleType):
         if isinstance(a, _np.ndarray) and a.dtype != object:
             return _np.argsort(a, axis=axis, **kw)
         a = _np.asarray(_plain(a), dtype=object)
+        if a.ndim == 0:
+            return _np.zeros((), dtype=int)
         if a.ndim != 1:
-            raise NotImplementedError("argsort of symbolic nd arrays")
-        return _np.array(sorted(range(len(a)), key=functools.cmp_to_key(lambda i, j: _cmp3(a[i], a[j]))))
+            if axis is None:
+                return self.argsort(a.ravel())
+            # lane by lane along the axis (stable, like the 1-D case)
+            m = _np.moveaxis(a, axis, -1)
+            out = _np.empty(m.shape, dtype=int)
+            for i in _np.ndindex(*m.shape[:-1]):
+                out[i] = self.argsort(m[i])
+            return _np.moveaxis(out, -1, axis)
+        return _np.array(sorted(range(len(a)), key=functools.cmp_to_key(lambda i, j: _cmp3(a[i], a[j]))), dtype=int)
 
-    def sort(self, a, axis=-1):
+    def sort(self, a, axis=-1, **kw):
+        if isinstance(a, _np.ndarray) and not isinstance(a, SArr) and a.dtype != object:
+            return _np.sort(a, axis=axis, **kw)
+        if not _has_sym(a) and _all_int(_np.asarray(_plain(self.asarray(a)), dtype=object)):
+            return _np.sort(_np.array(_np.asarray(_plain(self.asarray(a)), dtype=object).tolist()), axis=axis, **kw)
         a = sarr(a)
-        idx = self.argsort(a)
-        return a[idx]
+        if axis is None:
+            a = a.ravel()
+            axis = -1
+        idx = self.argsort(a, axis=axis)
+        return _wrap(_np.take_along_axis(a.view(_np.ndarray), idx, axis=axis))
 
     def lexsort(self, keys):
         keys = [(_np.asarray(_plain(k), dtype=object) if isinstance(k, _np.ndarray) else _np.asarray(k)) for k in keys]
